@@ -131,6 +131,31 @@ class Smt:
         return "\n".join(self.decls + distinct + ["(assert %s)" % a for a in self.asserts] + ["(assert %s)" % goal, "(check-sat)", "(get-model)"])
 
 
+CTOR_DISCR = {"None": 0, "Some": 1, "Ok": 0, "Err": 1, "Continue": 0, "Break": 1}
+
+
+def split_sexpr_args(t):
+    """arguments of `(f a b ...)` at nesting depth 1"""
+    t = t.strip()
+    assert t.startswith("(") and t.endswith(")")
+    inner = t[1:-1]
+    out, d, cur = [], 0, ""
+    for ch in inner:
+        if ch == "(":
+            d += 1
+        elif ch == ")":
+            d -= 1
+        if ch == " " and d == 0:
+            if cur:
+                out.append(cur)
+            cur = ""
+        else:
+            cur += ch
+    if cur:
+        out.append(cur)
+    return out[1:]
+
+
 def mk_deref(t):
     t = t.strip()
     if t.startswith("(ref ") and t.endswith(")"):
@@ -152,7 +177,14 @@ def sanitize(name):
 class Exec:
     """Symbolic executor of one loop-free body.  Returns a list of (path_condition, return_value, calls)"""
 
-    def __init__(self, bodies, smt, models=None, inline=None, max_paths=256):
+    def __init__(self, bodies, smt, models=None, inline=None, max_paths=256, ctor=False, unroll=False):
+        # ctor: constructor terms `(C_Some x)`, `C_None`, `(C_Ok x)`, `(C_tuple a b)`, ... produced by models and by
+        #       Option/tuple aggregates are projected and matched syntactically (exact: they are free constructors);
+        #       `k_<n>_usize` constants are folded through AddWithOverflow / comparisons.
+        # unroll: bodies with back edges are accepted; every loop must then terminate by concrete (folded) conditions
+        #       within the depth limit, otherwise the walk raises and the query is inconclusive.
+        self.ctor = ctor
+        self.unroll = unroll
         self.bodies = bodies
         self.smt = smt
         self.models = models or {}
@@ -199,15 +231,23 @@ class Exec:
                 if hv is not None:
                     return hv
             base = self.place(env, m.group(1))
+            if self.ctor and base.startswith("(C_"):
+                parts = split_sexpr_args(base)
+                if int(m.group(2)) < len(parts):
+                    return parts[int(m.group(2))]
             return "(%s %s)" % (self.smt.fun("fld_%s" % m.group(2), 1), base)
         m = re.match(r"^(.+) as (\w+)$", p)
         if m:
             base = self.place(env, m.group(1))
+            if self.ctor and base.startswith("(C_%s " % m.group(2)):
+                return base
             return "(%s %s)" % (self.smt.fun("as_%s" % m.group(2), 1), base)
         if re.match(r"^_\d+$", p):
             if p not in env:
                 env[p] = self.smt.const("undef" + p)
             return env[p]
+        if self.ctor and re.search(r"Option::<.*>::None$", p):
+            return self.smt.fun("C_None", 0)
         return self._konst(p)
 
     @staticmethod
@@ -237,11 +277,23 @@ class Exec:
             env.setdefault("__writes", [])
             env["__writes"] = env["__writes"] + [(refterm, mw.group(2), val)]
             return
+        mw = re.match(r"^\(\*(_\d+)\)$", lhs)
+        if mw and self.ctor and val.startswith("(C_tuple"):
+            refterm = self.place(env, mw.group(1))
+            heap = dict(env.get("__heap", {}))
+            for i, part in enumerate(split_sexpr_args(val)):
+                heap[(refterm, str(i))] = part
+            env["__heap"] = heap
+            return
         else:
             # write through a projection: not needed for the read-only glue; keep sound by havocking the base local
             m = re.search(r"_\d+", lhs)
             if m:
                 env[m.group(0)] = self.smt.const("havoc" + m.group(0))
+            if "(*_" in lhs:
+                # a store through a reference that is not tracked field-wise: remember it (queries that
+                # forbid direct writes to shared state look at `__writes`)
+                env["__writes"] = env.get("__writes", []) + [("deref-write", lhs, val)]
 
     def rvalue(self, env, rv):
         rv = rv.strip()
@@ -253,6 +305,8 @@ class Exec:
             if len(parts) > 1 or rv.startswith("["):
                 vals = [self.operand(env, x) for x in parts if x]
                 if vals:
+                    if self.ctor and rv.startswith("("):
+                        return "(%s %s)" % (self.smt.fun("C_tuple%d" % len(vals), len(vals)), " ".join(vals))
                     return "(%s %s)" % (self.smt.fun("mk_tuple%d" % len(vals), len(vals)), " ".join(vals))
         m = re.match(r"^&(?:mut |raw const |raw mut )?(.+)$", rv)
         if m:
@@ -263,7 +317,12 @@ class Exec:
             return "(ref %s)" % self.place(env, inner)
         m = re.match(r"^discriminant\((.+)\)$", rv)
         if m:
-            return "(%s %s)" % (self.smt.fun("discr", 1), self.place(env, m.group(1)))
+            b = self.place(env, m.group(1))
+            if self.ctor:
+                mc = re.match(r"^\(?C_(\w+)", b)
+                if mc and mc.group(1) in CTOR_DISCR:
+                    return self._konst("int_%d" % CTOR_DISCR[mc.group(1)])
+            return "(%s %s)" % (self.smt.fun("discr", 1), b)
         m = re.match(r"^(Not|Neg)\((.+)\)$", rv)
         if m:
             v = self.operand(env, m.group(2))
@@ -274,11 +333,45 @@ class Exec:
         if m:
             a, b = self.split_args(m.group(2))
             va, vb = self.operand(env, a), self.operand(env, b)
+            if self.ctor:
+                ma, mb = re.match(r"^k_(\d+)_usize$", va), re.match(r"^k_(\d+)_usize$", vb)
+                if ma and mb:
+                    x, y = int(ma.group(1)), int(mb.group(1))
+                    o = m.group(1)
+                    if o in ("AddWithOverflow", "Add"):
+                        r = self._konst("%d_usize" % (x + y))
+                        return "(%s %s (b2v false))" % (self.smt.fun("C_tuple2", 2), r) if o == "AddWithOverflow" else r
+                    cmpr = {"Eq": x == y, "Ne": x != y, "Lt": x < y, "Le": x <= y, "Gt": x > y, "Ge": x >= y}
+                    if o in cmpr:
+                        return "(b2v %s)" % ("true" if cmpr[o] else "false")
             if m.group(1) == "Eq":
                 return "(b2v (= %s %s))" % (va, vb)
             if m.group(1) == "Ne":
                 return "(b2v (not (= %s %s)))" % (va, vb)
             return "(%s %s %s)" % (self.smt.fun("op_" + m.group(1), 2), va, vb)
+        if self.ctor and rv.endswith(")") and re.match(r"^[A-Za-z_]", rv) and "::" in rv:
+            # enum/struct aggregate whose path may contain parentheses in generics:  Result::<(), E>::Ok(x)
+            d, i = 0, len(rv) - 1
+            while i >= 0:
+                if rv[i] == ")":
+                    d += 1
+                elif rv[i] == "(":
+                    d -= 1
+                    if d == 0:
+                        break
+                i -= 1
+            head = rv[:i]
+            mv = re.search(r"::(Ok|Err|Some)$", head)
+            if i > 0 and mv and head.count("<") == head.count(">"):
+                vals = [self.operand(env, f) for f in self.split_args(rv[i + 1:-1])]
+                if len(vals) == 1:
+                    return "(%s %s)" % (self.smt.fun("C_" + mv.group(1), 1), vals[0])
+        if self.ctor:
+            mcl = re.match(r"^\{closure@[^}]*\} \{(.*)\}$", rv)
+            if mcl:
+                fields = [f.split(":", 1)[1] for f in self.split_args(mcl.group(1)) if ":" in f]
+                vals = [self.operand(env, f) for f in fields]
+                return "(%s %s)" % (self.smt.fun("C_closure%d" % len(vals), len(vals)), " ".join(vals)) if vals else self._konst("closure_unit")
         # aggregate  Path::Variant { f: op, .. } | Path(op, ..) | (a, b) | [a; n]
         m = re.match(r"^([A-Za-z_][\w:<>, ']*?)\s*\{(.*)\}$", rv)
         if m:
@@ -288,6 +381,8 @@ class Exec:
         m = re.match(r"^([A-Za-z_][\w:<>, ']*?)\((.*)\)$", rv)
         if m and not rv.startswith("("):
             vals = [self.operand(env, f) for f in self.split_args(m.group(2))]
+            if self.ctor and len(vals) == 1 and re.search(r"Option::<.*>::Some$", m.group(1)):
+                return "(%s %s)" % (self.smt.fun("C_Some", 1), vals[0])
             return "(%s %s)" % (self.smt.fun("mk_" + sanitize(m.group(1))[:60], len(vals)), " ".join(vals)) if vals else self._konst(m.group(1))
         m = re.match(r"^(.+) as (.+) \((.+)\)$", rv)
         if m:
@@ -311,10 +406,12 @@ class Exec:
             out.append(cur.strip())
         return out
 
-    def run(self, body, arg_vals):
-        if body.has_loop():
+    def run(self, body, arg_vals, heap0=None):
+        if body.has_loop() and not self.unroll:
             raise ValueError("body %s has a loop: rejected (E3 handles loop-free glue only)" % body.name)
         env0 = {}
+        if heap0:
+            env0["__heap"] = dict(heap0)
         for i, v in enumerate(arg_vals):
             env0["_%d" % (i + 1)] = v
         results = []
@@ -361,6 +458,9 @@ class Exec:
                     return "true"
                 if c in ("false", "(not true)"):
                     return "false"
+                mk = re.match(r"^\(= k_int_(\d+) k_int_(\d+)\)$", c)
+                if mk:
+                    return "true" if mk.group(1) == mk.group(2) else "false"
                 return None
 
             for a in arms:
@@ -385,12 +485,14 @@ class Exec:
         if m and m[0] is not None:
             lhs, callee, args, nxt = m
             vals = [self.operand(env, a) for a in self.split_args(args)]
-            val = self.call(callee, vals)
+            val = self.call(callee, vals, env)
             calls = calls + [(callee, vals, list(pc))]
             self.assign(env, lhs, val)
             return self._walk(body, nxt, env, pc, calls, results, depth + 1)
         if m and m[0] is None:
             return self._walk(body, m[3], env, pc, calls, results, depth + 1)
+        if re.match(r"^(_\d+ = )?[\w:<>]*panic\w*(::<.*>)?\(.*\) -> (bb\d+|unwind .*);$", term):
+            return  # diverging call (panic): the path ends; reachability of panics is not what these queries decide
         if term.startswith("unreachable") or term.startswith("resume") or term.startswith("abort") or "-> unwind" in term:
             return
         raise ValueError("unsupported terminator in %s %s: %s" % (body.name, bb, term))
@@ -437,10 +539,12 @@ class Exec:
             return
         raise ValueError("unsupported statement: %s" % st)
 
-    def call(self, callee, vals):
+    def call(self, callee, vals, env=None):
         base = re.sub(r"::<.*>$", "", callee)
         for pat, fn in self.models.items():
             if re.search(pat, callee):
+                if getattr(fn, "wants_env", False):
+                    return fn(self, vals, env)
                 return fn(self, vals)
         return "(%s %s)" % (self.smt.fun("call_" + sanitize(base)[-70:], len(vals)), " ".join(vals)) if vals else self._konst("call_" + sanitize(base)[-70:])
 
